@@ -420,3 +420,29 @@ def closure_rule(ctx, rep, rid):
             else:
                 det = f"value stored as ancestry ({norm(val)}) does not derive from the value-level node's ancestry"
         r.check(okk, f'{t.qname}:ancestry-copied', where(t), det, f'Node.trim: {det}')
+
+
+def job_loop(prog, disp):
+    """the per-job loop of farm.dispatch: `for j in <_jobs...>` or `while <_jobs>: j = _jobs.pop(..)` -> (loop node, job variable)"""
+    JOBS = 'dawgie.pl.farm._jobs'
+    cands = []
+    for n in disp.own_nodes():
+        if isinstance(n, ast.For) and isinstance(n.target, ast.Name) and any(
+            resolve_container(prog, disp, x) == JOBS for x in ast.walk(n.iter) if isinstance(x, (ast.Name, ast.Attribute))
+        ):
+            cands.append((n, n.target.id))
+        elif isinstance(n, ast.While) and any(
+            resolve_container(prog, disp, x) == JOBS for x in ast.walk(n.test) if isinstance(x, (ast.Name, ast.Attribute))
+        ):
+            for s in ast.walk(n):
+                if (
+                    isinstance(s, ast.Assign)
+                    and len(s.targets) == 1
+                    and isinstance(s.targets[0], ast.Name)
+                    and any(resolve_container(prog, disp, x) == JOBS for x in ast.walk(s.value) if isinstance(x, (ast.Name, ast.Attribute)))
+                ):
+                    cands.append((n, s.targets[0].id))
+                    break
+    if len(cands) != 1:
+        raise AnalysisError(f'farm.dispatch: the loop over the released batch (_jobs) was not found ({len(cands)} candidates)')
+    return cands[0]
